@@ -575,4 +575,103 @@ theorem react_doneLog (rep : Bool) (nodes : Nat → Node) (exc : Nat → Nat →
     (i : Nat) : ∃ l, (react rep nodes exc refusal fs i).1.st.doneLog = fs.st.doneLog ++ l := by
   simp only [react]; exact runNode_doneLog nodes fs.st i
 
+/-! ### parentless pushes -/
+
+/-- an exception that a run of `c` can have produced -/
+def FromChild (exc : Nat → Nat → E) (refusal : Nat → E) (c : Nat) (e : E) : Prop := (∃ k, e = exc c k) ∨ e = refusal c
+
+/-- what a nested call did: it only appended to the log; no exception ⇒ no appended run raised; an exception ⇒ it is
+the exception of an appended run that raised -/
+def CallSpec (exc : Nat → Nat → E) (refusal : Nat → E) (ps : PState) (res : PState × Option E) : Prop :=
+  ∃ added, res.1.log = ps.log ++ added ∧
+    (res.2 = none → ∀ en ∈ added, en.raised = false) ∧
+    (∀ e, res.2 = some e → ∃ en ∈ added, en.raised = true ∧ FromChild exc refusal en.child e)
+
+theorem callAll_spec (exc : Nat → Nat → E) (refusal : Nat → E) (f : PState → Nat → PState × Option E)
+    (hf : ∀ ps j, CallSpec exc refusal ps (f ps j)) (l : List Nat) : ∀ ps, CallSpec exc refusal ps (callAll f ps l) := by
+  induction l with
+  | nil =>
+    intro ps
+    refine ⟨[], by simp [callAll], ?_, ?_⟩
+    · intro _ en h; cases h
+    · intro e h; simp [callAll] at h
+  | cons j rest ih =>
+    intro ps
+    obtain ⟨a1, h1, hn1, hs1⟩ := hf ps j
+    simp only [callAll]
+    cases hr : (f ps j).2 with
+    | some e =>
+      have : f ps j = ((f ps j).1, some e) := by rw [← hr]
+      rw [this]
+      refine ⟨a1, h1, ?_, ?_⟩
+      · intro h; cases h
+      · intro e' he'; simp only [Option.some.injEq] at he'; subst he'; exact hs1 e hr
+    | none =>
+      have : f ps j = ((f ps j).1, none) := by rw [← hr]
+      rw [this]
+      obtain ⟨a2, h2, hn2, hs2⟩ := ih (f ps j).1
+      refine ⟨a1 ++ a2, by rw [h2, h1, List.append_assoc], ?_, ?_⟩
+      · intro hnone en hen
+        rcases List.mem_append.mp hen with h | h
+        · exact hn1 hr en h
+        · exact hn2 hnone en h
+      · intro e he
+        obtain ⟨en, hen, hr2, hfc⟩ := hs2 e he
+        exact ⟨en, List.mem_append_right _ hen, hr2, hfc⟩
+
+/-- PROPAGATION: a push from any parentless node, through any hand-made signal graph, to any depth: nothing raised is
+lost on the way up, and nothing is invented -/
+theorem push_spec (nodes : Nat → Node) (g : Graph) (exc : Nat → Nat → E) (refusal : Nat → E) (fuel : Nat) :
+    ∀ ps i, CallSpec exc refusal ps (push false nodes g exc refusal fuel ps i) := by
+  induction fuel with
+  | zero =>
+    intro ps i
+    refine ⟨[], by simp [push], ?_, ?_⟩
+    · intro _ en h; cases h
+    · intro e h; simp [push] at h
+  | succ fuel ih =>
+    intro ps i
+    simp only [push, Bool.false_eq_true, if_false]
+    generalize hr : runNode nodes ps.st i = r
+    generalize hen0 : Entry.mk i r.2.1 (decide (ps.st.execLog.length < r.1.execLog.length)) r.2.2 = en0
+    have hspec := callAll_spec exc refusal (push false nodes g exc refusal fuel) ih
+      (((pairs g r.2.2).filter (fun p => !p.2.acc)).map (fun p => p.2.node)) { st := r.1, log := ps.log ++ [en0] }
+    generalize callAll (push false nodes g exc refusal fuel) { st := r.1, log := ps.log ++ [en0] }
+      (((pairs g r.2.2).filter (fun p => !p.2.acc)).map (fun p => p.2.node)) = res at hspec
+    obtain ⟨added, hlog, hnone, hsome⟩ := hspec
+    obtain ⟨p, o⟩ := res
+    simp only at hlog hnone hsome
+    cases hraised : r.2.1 with
+    | false =>
+      simp only [Bool.false_eq_true, if_false]
+      refine ⟨en0 :: added, by rw [hlog]; simp, ?_, ?_⟩
+      · intro h en hen
+        rcases List.mem_cons.mp hen with h1 | h1
+        · subst h1; rw [← hen0]; exact hraised
+        · exact hnone h en h1
+      · intro e he
+        obtain ⟨en, hen, h1, h2⟩ := hsome e he
+        exact ⟨en, List.mem_cons_of_mem _ hen, h1, h2⟩
+    | true =>
+      simp only [if_true]
+      cases o with
+      | some e2 =>
+        refine ⟨en0 :: added, by simp only; rw [hlog]; simp, ?_, ?_⟩
+        · intro h; cases h
+        · intro e he
+          simp only [Option.some.injEq] at he; subst he
+          obtain ⟨en, hen, h1, h2⟩ := hsome e2 rfl
+          exact ⟨en, List.mem_cons_of_mem _ hen, h1, h2⟩
+      | none =>
+        refine ⟨en0 :: added, by simp only; rw [hlog]; simp, ?_, ?_⟩
+        · intro h; cases h
+        · intro e he
+          simp only [Option.some.injEq] at he
+          refine ⟨en0, by simp, by rw [← hen0]; exact hraised, ?_⟩
+          rw [← hen0, ← he]
+          simp only
+          split
+          · exact Or.inl ⟨_, rfl⟩
+          · exact Or.inr rfl
+
 end PwVerif.FlowFail
